@@ -9,6 +9,7 @@ import (
 	"path/filepath"
 	"strconv"
 	"sync"
+	"time"
 
 	"verif/ev"
 	"verif/idl"
@@ -168,6 +169,9 @@ func workerMain(args []string) int {
 	n, _ := strconv.Atoi(args[2])
 	from, _ := strconv.Atoi(args[3])
 	only := len(args) > 6 && args[6] == "only"
+	if ms, err := strconv.Atoi(os.Getenv("VERIF_C10_WATCHDOG_MS")); err == nil && ms >= 0 { // testing aid for the hang path
+		parseWatchdog = time.Duration(ms) * time.Millisecond
+	}
 	if only {
 		parseWatchdog *= 2
 	}
@@ -270,9 +274,7 @@ func runModelJob(run *ev.Run, j job, b bounds, base string) *jobResult {
 			if j.I%2 == 1 {
 				rst = idl.RandomStyle(run.Rand(fmt.Sprintf("c10-%s-rtstyle-%d", j.Pool, j.I)))
 			}
-			if f := e.roundTrip(p, o.Res, rst, label); f != nil {
-				r.Failures = append(r.Failures, *f)
-			}
+			r.Failures = append(r.Failures, e.roundTrip(p, o.Res, rst, label)...)
 			r.RoundTrips++
 		}
 		e.cleanup(o)
@@ -282,45 +284,60 @@ func runModelJob(run *ev.Run, j job, b bounds, base string) *jobResult {
 
 // roundTrip re-renders the parse tree (through the reverse mapping) with
 // style st and parses the text again: same dump expected.
-func (e *evaluator) roundTrip(p *idl.Program, first *parseResult, st idl.Style, label string) *failure {
-	e.n++
-	dir := filepath.Join(e.base, fmt.Sprintf("rt%d", e.n))
-	defer os.RemoveAll(dir)
-	texts := map[string]string{}
+func (e *evaluator) roundTrip(p *idl.Program, first *parseResult, st idl.Style, label string) []failure {
 	rootName := filepath.Base(first.Root)
+	var files []*idl.File
 	for _, t := range first.Trees {
 		f, err := reverseFile(t)
 		if err != nil {
-			return &failure{Sig: "C10:roundtrip:not-renderable", What: "the parse tree holds something the declared model never said: " + err.Error(),
-				Witness: witnessOf(p, idl.DefaultStyle(), nil, label)}
+			return []failure{{Sig: "C10:roundtrip:not-renderable", What: "the parse tree holds something the declared model never said: " + err.Error(),
+				Witness: witnessOf(p, idl.DefaultStyle(), nil, label)}}
 		}
-		texts[f.FileName()] = idl.RenderFile(f, st)
+		files = append(files, f)
 	}
-	os.MkdirAll(dir, 0o755)
-	for n, t := range texts {
-		if err := os.WriteFile(filepath.Join(dir, n), []byte(t), 0o644); err != nil {
-			return nil
+	var texts map[string]string
+	eval := func(st idl.Style) *outcome {
+		e.n++
+		dir := filepath.Join(e.base, fmt.Sprintf("rt%d", e.n))
+		defer os.RemoveAll(dir)
+		os.MkdirAll(dir, 0o755)
+		texts = map[string]string{}
+		for _, f := range files {
+			texts[f.FileName()] = idl.RenderFile(f, st)
+			os.WriteFile(filepath.Join(dir, f.FileName()), []byte(texts[f.FileName()]), 0o644)
 		}
+		res := parseProgram(filepath.Join(dir, rootName))
+		e.parsed++
+		e.files += len(res.Files)
+		return judge(first.Files, res)
 	}
-	res := parseProgram(filepath.Join(dir, rootName))
-	e.parsed++
-	e.files += len(res.Files)
-	o := judge(first.Files, res)
+	mk := func(sig string, st idl.Style, o *outcome, tx map[string]string) failure {
+		w := witnessOf(p, idl.DefaultStyle(), nil, label)
+		w["rerendered_style"] = st.String()
+		w["rerendered_files"] = tx
+		w["observed"] = o.describe()
+		return failure{Sig: sig, What: "render(parse(text)) does not parse back to the same model: " + o.describe() + " [re-rendered with style " + knobLabel(st) + "]", Witness: w}
+	}
+	o := eval(st)
 	if o.OK {
 		return nil
 	}
-	w := witnessOf(p, idl.DefaultStyle(), nil, label)
-	w["rerendered_style"] = st.String()
-	w["rerendered_files"] = texts
-	w["observed"] = o.describe()
+	tx := texts
 	if len(o.Classes) > 0 {
-		return &failure{Sig: "C10:lexical:" + o.Classes[0], What: "render(parse(text)) parses to a different model: " + o.describe() + " [re-rendered with style " + knobLabel(st) + "]", Witness: w}
+		return []failure{mk("C10:lexical:"+o.Classes[0], st, o, tx)}
 	}
-	// is it the style of the second rendering?
 	if st != idl.DefaultStyle() {
-		return &failure{Sig: fmt.Sprintf("C10:roundtrip:%s:%s", o.what(), knobLabel(st)), What: "render(parse(text)) does not parse back to the same model: " + o.describe() + " [re-rendered with style " + knobLabel(st) + "]", Witness: w}
+		if od := eval(idl.DefaultStyle()); od.OK {
+			var out []failure
+			for _, b := range bisectStyle(st, o, eval) {
+				out = append(out, mk("C10:roundtrip:style:"+b.part, b.st, b.o, nil))
+			}
+			return out
+		} else {
+			o, st, tx = od, idl.DefaultStyle(), texts
+		}
 	}
-	return &failure{Sig: "C10:roundtrip:" + o.what(), What: "render(parse(text)) does not parse back to the same model: " + o.describe(), Witness: w}
+	return []failure{mk("C10:roundtrip:"+o.what(), st, o, tx)}
 }
 
 func runWitnessJob(j job, base string) *jobResult {
